@@ -233,9 +233,14 @@ impl<'a> Renderer<'a> {
             }
             for im in &self.p.impls {
                 let tt = self.ty(&im.for_ty);
+                let generics = if im.tparams > 0 {
+                    format!("[{}]", (0..im.tparams).map(|i| TPARAM_NAMES[i as usize % 4]).collect::<Vec<_>>().join(", "))
+                } else {
+                    String::new()
+                };
                 match im.trait_ {
-                    Some(t) => self.out.push_str(&format!("impl {} for {} {{", self.p.traits[t].name, tt)),
-                    None => self.out.push_str(&format!("impl {} {{", tt)),
+                    Some(t) => self.out.push_str(&format!("impl{} {} for {} {{", generics, self.p.traits[t].name, tt)),
+                    None => self.out.push_str(&format!("impl{} {} {{", generics, tt)),
                 }
                 self.indent += 1;
                 for f in &im.methods {
@@ -256,7 +261,8 @@ impl<'a> Renderer<'a> {
     }
 
     fn func(&mut self, f: &FnDef) {
-        let tps = if f.tparams > 0 {
+        // (a method's type parameters are those of its impl block)
+        let tps = if f.tparams > 0 && f.owner.is_none() {
             format!(
                 "[{}]",
                 (0..f.tparams)
